@@ -2,6 +2,7 @@ import BU.Properties.C13
 import BU.Properties.C03_Gen
 import BU.Properties.C04_Gen
 import BU.Properties.C05_Gen
+import BU.Properties.C06_GenWrap
 /-!
 # C13, continuation — the *translated* digest functions depend on the transaction skeleton only (tier T)
 
@@ -46,5 +47,42 @@ theorem gen_digests_depend_on_skeleton (sha256 : Bytes → Bytes) (T : Tables) (
   · rw [C04Gen.gen_segwit_digest sha256 T t i code amount ht ho hc, C04Gen.gen_segwit_digest sha256 T t' i code amount ht ho' hc, h2]
   · rw [C05Gen.gen_taproot_digest sha256 T t i spks amounts ext leaf lv ht hs ho hl,
       C05Gen.gen_taproot_digest sha256 T t' i spks amounts ext leaf lv ht hs ho' hl, h3]
+
+end C13Gen
+
+namespace C13Gen
+open Py Spec Model Model.Order C02Gen C01Gen
+
+/-- **the translated public signing methods read the skeleton only**: `sign_input` and `sign_segwit_input`, as re-translated on this run,
+return the same signature for two transactions with equal skeletons — whatever scriptSigs and witnesses the other inputs carry at that
+moment.  With `C13.order_independent` this is the order-independence of multi-input signing for the translated API methods. -/
+theorem gen_sign_depends_on_skeleton (sha256 : Bytes → Bytes) (T : Tables) (signer : Bytes → Option Bytes → Bytes)
+    (dec : Bytes → Int → Except PyErr (Int × Int)) (enc : Int → Int → Int → Bytes) (N : Nat)
+    (t t' : Tx) (hsk : skeleton t = skeleton t') (i : Nat) (code : List Spec.Tok) (amount : Int) (ht : Nat) (ws ws' : List Py.PyWit)
+    (hcode : ∀ (y : TxIn) b, inScript T { y with scriptSig := code } = .ok b → b.length < 2 ^ 64)
+    (hc : ∀ b, scriptBytes T code = .ok b → b.length < 2 ^ 64)
+    (ho : ∀ o ∈ t.outputs, ∀ b, scriptBytes T o.script = .ok b → b.length < 2 ^ 64)
+    (hni : t.inputs.length < 2 ^ 64) (hno : t.outputs.length < 2 ^ 64) :
+    Gen.pk_sign_input sha256 T.opCodes signer dec enc N t.version (t.inputs.map inPy) (t.outputs.map outPy) ws t.locktime (i : Int)
+        (code.map toPy) (ht : Int) =
+      Gen.pk_sign_input sha256 T.opCodes signer dec enc N t'.version (t'.inputs.map inPy) (t'.outputs.map outPy) ws' t'.locktime (i : Int)
+        (code.map toPy) (ht : Int) ∧
+    Gen.pk_sign_segwit_input sha256 T.opCodes signer dec enc N t.version (t.inputs.map inPy) (t.outputs.map outPy) t.locktime (i : Int)
+        (code.map toPy) amount (ht : Int) =
+      Gen.pk_sign_segwit_input sha256 T.opCodes signer dec enc N t'.version (t'.inputs.map inPy) (t'.outputs.map outPy) t'.locktime (i : Int)
+        (code.map toPy) amount (ht : Int) := by
+  obtain ⟨h1, h2, _⟩ := C13.digests_depend_on_skeleton sha256 T t t' hsk i code ht amount [] [] 0 []
+  have hout : t'.outputs = t.outputs := by
+    have := congrArg (fun x => x.2.2.1) hsk; exact this.symm
+  have hin : t'.inputs.length = t.inputs.length := by
+    have := congrArg (fun x => x.2.2.2.length) hsk
+    simp only [skeleton, List.length_map] at this
+    exact this.symm
+  have ho' : ∀ o ∈ t'.outputs, ∀ b, scriptBytes T o.script = .ok b → b.length < 2 ^ 64 := by rw [hout]; exact ho
+  constructor
+  · rw [C06GenWrap.gen_pk_sign_input sha256 T signer dec enc N t i code ht ws hcode ho hni hno,
+      C06GenWrap.gen_pk_sign_input sha256 T signer dec enc N t' i code ht ws' hcode ho' (by omega) (by rw [hout]; exact hno), h1]
+  · rw [C06GenWrap.gen_pk_sign_segwit_input sha256 T signer dec enc N t i code amount ht ho hc,
+      C06GenWrap.gen_pk_sign_segwit_input sha256 T signer dec enc N t' i code amount ht ho' hc, h2]
 
 end C13Gen
